@@ -23,10 +23,13 @@ RULE = (
     "every subset of <= 2 interior grid points as knots (incl. one doubled knot) or every df in degree..degree+3 x "
     "bounds (default / explicit) x include_intercept x the 5 extrapolation modes; then the SAME state dictionary is "
     "re-used on follow-up vectors (a dyadic grid over [-1,5] incl. out-of-range points and a null; in-range only; for "
-    "the cubic family also the recorded knots).  Cubic family: cr/cs/cc x constraints none/'center' x df 3..5 or "
+    "the cubic family also the recorded knots).  Cubic family: cr (= cs) / cc x constraints none/'center' x df or "
     "explicit knots x the 5 extrapolation modes.  Every output row is compared with the exact reference (Cox-de Boor "
-    "/ cardinal natural / periodic cubic spline on the recorded knots).  Non-trivial = the transform accepted the "
-    "configuration (or rejected it exactly where documented) and at least two distinct in-range training values exist."
+    "/ cardinal natural / periodic cubic spline on the recorded knots); the recorded state is compared with what the "
+    "arguments imply.  A last sub-check drives the same transforms through model_matrix / ModelSpec re-use and "
+    "compares with the direct calls.  Exact per-tier bounds are listed per sub-check.  Non-trivial = the transform "
+    "accepted the configuration (or rejected it exactly where documented) and at least two distinct in-range "
+    "training values exist."
 )
 ASSUMPTIONS = [
     "small-scope hypothesis: knot placement, the recursion, boundary closure and the extrapolation rules have no "
@@ -264,11 +267,12 @@ def bs_rows_findings(M, x, t, degree, extrap, icpt, phase):
     for r in bad_rows(M, W, nanrow, dead):
         v = x[r]
         if v is None:
-            sig = "bs-null-row-not-nan"
+            sig = "bs-null-row-not-nan" + ("-degree0" if degree == 0 else "")
         elif inside[r]:
             sig = "bs-value"
         else:
-            sig = {"clip": "bs-clip-row", "na": "bs-na-row-not-nan", "zero": "bs-zero-row", "extend": "bs-extend-row"}[extrap]
+            sig = {"clip": "bs-clip-row", "na": "bs-na-row-not-nan" + ("-degree0" if degree == 0 else ""),
+                   "zero": "bs-zero-row", "extend": "bs-extend-row"}[extrap]
             if extrap == "extend" and ((v < t[0] and t[degree + 1] == t[0]) or (v > t[-1] and t[-degree - 2] == t[-1])):
                 sig = "bs-extend-row-knot-on-boundary"
         if sig in seen:
@@ -454,7 +458,7 @@ def drv_bs(c, ctx, col):
     emit(col, key, detail, bs_rows_findings(M, x, t, degree, extrap, icpt, "train"))
 
     # ---- re-use of the state on follow-up vectors ---------------------------
-    vkey = ("bs", state_digest(state), degree, icpt, extrap)
+    vkey = ("bs", state_digest(state), kw_src, len(ctx["followup"]))
     if vkey not in _FOLLOW:
         _FOLLOW[vkey] = bs_followups(state, kwargs, kw_src, t, degree, extrap, icpt, want_keys, ctx["followup"])
     else:
@@ -568,7 +572,7 @@ def cubic_call_follow(fn, state, kwargs, kw_src, t, extrap, want_keys, name, x2)
 
 def drv_cubic(c, ctx, col):
     kind = c.pick(ctx["kinds"])
-    cons = c.pick([None, "center"])
+    cons = c.pick(ctx["constraints"])
     extrap = c.pick(EXTRAP)
     bmode, max_len = c.pick(ctx["bounds"])
     cyclic = kind == "cc"
@@ -688,9 +692,9 @@ def drv_cubic(c, ctx, col):
     if not cons and state["constraints"] is not None:
         col.violation(key + " :: state constraints", dict(detail, state=repr(state)), sig="cubic-state-keys")
         return
-    vkey = (kind, state_digest(state), cons, extrap)
+    grid = ctx["followup_df"] if what == "df" else ctx["followup"]
+    vkey = (kind, state_digest(state), kw_src, len(grid))
     if vkey not in _FOLLOW:
-        grid = ctx["followup_df"] if what == "df" else ctx["followup"]
         lbf, ubf = float(t[0]), float(t[-1])
         kn = list(t)
         x2 = kn + ([v for v in grid if v is None or lbf <= v <= ubf] if extrap == "raise" else grid)
@@ -852,28 +856,38 @@ def subchecks(tier, seed):
                 out.append("%s: x = sorted multisets of 2..%d symbols of {-1,0,1/2,1,3/2,2,3,4,5,null}" % (what, n))
         return out + [">= 2 distinct in-range values required"]
 
-    return [
-        Sub("bs-knots", drv_bs, {"mode": "knots", "degrees": degs, "bounds": bnd["bs-knots"], "followup": FINE},
-            shard_depth=4,
-            bounds={"x and bounds": btxt("bs-knots"), "degree": "0..5", "include_intercept": "False | True",
-                    "knots": "every subset of <= 2 grid points strictly inside the bounds + every doubled knot",
-                    "extrapolation": EXTRAP,
-                    "follow-up vectors (state re-use)": "k/8 for k=-8..40 plus a null; its in-range part plus a null"}),
-        Sub("bs-df", drv_bs, {"mode": "df", "degrees": degs, "bounds": bnd["bs-df"], "followup": COARSE},
-            shard_depth=4,
-            bounds={"x and bounds": btxt("bs-df"), "degree": "0..5", "include_intercept": "False | True",
-                    "df": "degree..degree+3", "extrapolation": EXTRAP,
-                    "follow-up vectors (state re-use)": "13 dyadic points in -1..5 plus a null; its in-range part plus a null"}),
-        Sub("cubic", drv_cubic, {"kinds": ["cr", "cc"], "bounds": bnd["cubic"], "dfs": dfs, "followup": FINE,
-                                 "followup_df": COARSE},
-            shard_depth=4,
-            bounds={"transforms": "cr (cs is the same function object, asserted at start-up) | cc",
-                    "x and bounds": btxt("cubic"), "df": "%d..%d" % (dfs[0], dfs[-1]),
-                    "knots": "every subset of <= 2 grid points strictly inside the bounds",
-                    "constraints": "None | 'center'", "extrapolation": EXTRAP,
-                    "follow-up vectors (state re-use)": "the recorded knots followed by the k/8 grid (explicit knots) or 13 "
-                                                        "dyadic points (df) in -1..5 plus a null"}),
-    ] + ([
+    # Sub-checks are split by the region in which a defect class lives (degree 0; natural / cyclic), so that a flood of
+    # one class of violations cannot crowd the others out of the runner's report.
+    subs = []
+    for suffix, dd, dtxt in (("-degree0", [0], "0"), ("", degs[1:], "1..5")):
+        subs.append(
+            Sub("bs-knots" + suffix, drv_bs, {"mode": "knots", "degrees": dd, "bounds": bnd["bs-knots"], "followup": FINE},
+                shard_depth=4,
+                bounds={"x and bounds": btxt("bs-knots"), "degree": dtxt, "include_intercept": "False | True",
+                        "knots": "every subset of <= 2 grid points strictly inside the bounds + every doubled knot",
+                        "extrapolation": EXTRAP,
+                        "follow-up vectors (state re-use)": "k/8 for k=-8..40 plus a null; its in-range part plus a null"}))
+        subs.append(
+            Sub("bs-df" + suffix, drv_bs, {"mode": "df", "degrees": dd, "bounds": bnd["bs-df"], "followup": COARSE},
+                shard_depth=4,
+                bounds={"x and bounds": btxt("bs-df"), "degree": dtxt, "include_intercept": "False | True",
+                        "df": "degree..degree+3", "extrapolation": EXTRAP,
+                        "follow-up vectors (state re-use)": "13 dyadic points in -1..5 plus a null; its in-range part plus a null"}))
+    for name, kind, ktxt in (("cubic-natural", "cr", "cr (cs is the same function object, asserted at start-up)"),
+                             ("cubic-cyclic", "cc", "cc")):
+        for suffix, cons in (("-center", "center"), ("", None)):
+            subs.insert(0 if cons else len(subs),
+                Sub(name + suffix, drv_cubic, {"kinds": [kind], "constraints": [cons], "bounds": bnd["cubic"], "dfs": dfs,
+                                               "followup": FINE, "followup_df": COARSE},
+                    shard_depth=4,
+                    bounds={"transform": ktxt, "constraints": repr(cons), "x and bounds": btxt("cubic"),
+                            "df": "%d..%d" % (dfs[0], dfs[-1]),
+                            "knots": "every subset of <= 2 grid points strictly inside the bounds", "extrapolation": EXTRAP,
+                            "follow-up vectors (state re-use)": "the recorded knots followed by the k/8 grid (explicit knots) "
+                                                                "or 13 dyadic points (df) in -1..5 plus a null"}))
+    subs.sort(key=lambda sub: ("degree0" in sub.name, not sub.name.startswith("cubic")))  # rarer defect classes first
+    return subs + ([
+
         Sub("bs-df-seed-slice", drv_bs, {"mode": "df", "degrees": [degs[seed % 6]], "bounds": [(narrow, 3), (both, 3)],
                                          "followup": COARSE},
             shard_depth=4,
